@@ -62,7 +62,9 @@ def build(tier, seed):
         'cases': cases,
         'rule': 'prefix tree of all words over the alphabet up to the length bound (pool case = sub-tree rooted at a word of '
                 'length <= %d); every non-constant node x ptype {all,max,min} x input container {float64,int64,list} x '
-                'cycle counter opt {all,switched} x start {origin,peak}; non-trivial = non-constant word' % ROOT,
+                'cycle counter opt {all,switched} x start {origin,peak} (+ uint8, int16 x100, amplitudes 1e-9 / 1e-170 / 1e300, a large '
+                'offset with tiny steps, signal objects reused after reset_values for short words); stretched family: every word of the '
+                'stated length with each sample held for k steps, float64; non-trivial = non-constant word' % ROOT,
         'bounds': bounds,
         'required_classes': ['flat-start', 'flat-end', 'interior-plateau-extremum', 'interior-plateau-nonextremum',
                              'starts-rising', 'starts-falling', 'ptype-max', 'ptype-min', 'ncyc-switched', 'stretched-long-record'],
